@@ -68,6 +68,12 @@ META = {
                  'deleteMany / deleteBy are modelled per id (a destroy touches only rows of its own id)',
                  'the referencing table (plain class R with cascade=False / null / True keys to the levels) is not in the '
                  'model: which levels are restricted is read from R by raw SELECT and given to the model as data',
+                 'the per-level value caches of the main connection and Transaction.commit (expiry of every level of every '
+                 'chain fetched in the transaction: C15_commit_after_write_and_destroy_coherent); what the real commit '
+                 'expires is checked by the oracle only: instances loaded on the main connection before a transaction '
+                 '(all levels, all attributes read) are read again after commit / rollback through the old handle and through '
+                 'get() at every level against the raw rows; transaction-side instances are held until the transaction ends '
+                 '(collected ones are the open C07 findings)',
                  'connections: a state is a map connection -> tables; a transaction is begin/rollback/commit of the default '
                  'database (file-backed in those cases, so that what bypasses the transaction is committed on its own)'],
     'assumptions': ['translated-method theorems: instances are built by _init (cold instance cache: _parent is None before '
